@@ -135,13 +135,49 @@ fn run_case(c: &Case, acc: &mut Acc) -> R {
     Ok(())
 }
 
+
+// ---------------------------------------------------------------------------
+// the back ends' private streaming writers (digest / MAC / signature adapters) must receive the
+// same byte sequence: observable as MAC / signature over the reference PAE for pieces of every size
+
+fn writers_for<B: crate::backends::Backend>(out: &mut Vec<SubCheck>) {
+    use crate::backends::KeySeed;
+    use crate::gens::BytesSpec;
+    use crate::props::c03::{self, LCase, NonceKind, PCase};
+    let piece = || (0u32..=700, 0u8..4, any::<u32>()).prop_map(|(len, fill, seed)| BytesSpec { len, fill, seed });
+    let cases = match B::NAME {
+        "paseto-v1" => (60, 600),
+        "paseto-v3" => (80, 1000),
+        "paseto-v3-aws-lc" => (150, 2000),
+        _ => (400, 6000),
+    };
+    let relabel = |r: R| r.map_err(|f| Fail::new(f.sig.replacen("C03/", "C15/backend-writer/", 1), f.what));
+    out.push(SubCheck::prop(
+        format!("c15.backend-writers/{}", B::NAME),
+        5,
+        cases,
+        move |_t| {
+            let has_i = B::VER.has_assertion();
+            (any::<u64>(), piece(), piece(), piece(), any::<u32>(), any::<bool>()).prop_map(move |(k, msg, footer, assertion, n, public)| {
+                let assertion = if has_i { assertion } else { BytesSpec::empty() };
+                (public, LCase { suffix: false, key: KeySeed::from_u64(k), msg: msg.clone(), footer: footer.clone(), assertion: assertion.clone(), nonce: NonceKind::Seed(n) }, PCase { suffix: false, key_variant: 0, key: KeySeed::from_u64(k), msg, footer, assertion, signer: (n % 3) as u8 })
+            })
+        },
+        move |c: &(bool, LCase, PCase), acc: &mut Acc| {
+            crate::rng::reseed_case(hash_of(&c.1.key));
+            if c.0 { relabel(c03::public_case::<B>(&c.2, acc)) } else { relabel(c03::local_case::<B>(&c.1, acc)) }
+        },
+    ));
+}
+
 pub fn def() -> PropertyDef {
-    let subs = vec![SubCheck::prop("c15.pae", 1, (20000, 400000), |_t| strat(), run_case)];
+    let mut subs = vec![SubCheck::prop("c15.pae", 1, (20000, 400000), |_t| strat(), run_case)];
+    crate::for_backends!(B => writers_for::<B>(&mut subs));
     PropertyDef {
         id: "C15",
         level: "exploration",
-        rule: "proptest cases: piece count 0..8 (one const-generic instantiation per N) x 0..4 fragments per piece x fragment lengths 0..600; oracle: output equals the reference PAE of the concatenated pieces, the reference PAE parser recovers exactly the piece list (injectivity), a recording streaming writer and the &mut adapter receive the same bytes, re-fragmenting does not change the output, and moving 1-3 bytes across a piece boundary always changes it. Non-trivial iff >= 2 pieces with a multi-fragment piece, or a boundary-shift pair was checked",
-        assumptions: vec!["the back ends' private digest/MAC writer adapters are covered through C03 (bit-exact agreement with the model's PAE-then-MAC)"],
+        rule: "proptest cases: piece count 0..8 (one const-generic instantiation per N) x 0..4 fragments per piece x fragment lengths 0..600; oracle: output equals the reference PAE of the concatenated pieces, the reference PAE parser recovers exactly the piece list (injectivity), a recording streaming writer and the &mut adapter receive the same bytes, re-fragmenting does not change the output, and moving 1-3 bytes across a piece boundary always changes it; the back ends' private digest / MAC / signature writer adapters are exercised through tokens whose message, footer and assertion have every length 0..700: the tag / signature must be the one over the reference PAE (bit-exact token, independent verifier, sibling acceptance). Non-trivial iff >= 2 pieces with a multi-fragment piece, or a boundary-shift pair was checked",
+        assumptions: vec!["the back ends' writer adapters are private: they are observed through the MAC / signature they produce"],
         subs,
     }
 }
